@@ -374,7 +374,7 @@ func wrapTry(c *vcase) *vcase {
 	a.label("C").pushData([]byte("C"))
 	a.label("E").op(opcode.RET)
 	s, _ := a.bytes()
-	return &vcase{script: s, args: c.args, gas: c.gas, priced: c.priced, family: c.family}
+	return &vcase{pre: c.pre, rv: c.rv, script: s, args: c.args, gas: c.gas, priced: c.priced, family: c.family}
 }
 
 // randomBytes: the malformed stream.
